@@ -27,7 +27,7 @@ from simfile.timing.displaybpm import (  # noqa: E402
 LEVEL = "model_checking"
 
 PROPS = ("BPMS", "STOPS", "DELAYS", "TIMESIGNATURES", "TICKCOUNTS", "COMBOS", "WARPS", "SPEEDS", "SCROLLS", "FAKES", "LABELS")
-VERSIONS = (None, "", "0.69", "0.7", "0.70", "0.83", "1.0")
+VERSIONS = (None, "", "0.69", "0.7", "0.70", "0.83", "1.0", "nan", "inf", "7e-1")
 SIM = {"BPMS": "0.000=111.000", "STOPS": "1.000=0.111", "DELAYS": "2.000=0.111", "WARPS": "3.000=1.000", "OFFSET": "0.111"}
 NONEMPTY_POOLS = {
     "BPMS": ("0.000=222.000", "0.000=222.000,\n8.000=444.000"),
@@ -111,7 +111,7 @@ def uses_chart(sfkind, version, chartkind, chart):
         v = float(version) if version else 0.0
     except ValueError:
         v = 0.0
-    if v < 0.7:
+    if not (v >= 0.7):  # "0.7 or later": not-a-number is not later than anything
         return False
     return any(chart.get(p) for p in PROPS)
 
@@ -178,6 +178,18 @@ def check_source(sfkind, version, chartkind, vector, seed, empty_value=""):
         third = f"{type(e).__name__}: {e}"
     if third != got:
         return [{"clause": "editing one TimingData's lists in place changes a TimingData built afterwards from the same source", "expected": got, "observed": third}], from_chart
+    if sfkind == "sm" and not from_chart and got == want:
+        # an SM simfile may spell its stops FREEZES (the legacy alias): the same timing data
+        sf2 = make_simfile(sfkind, version)
+        sf2["FREEZES"] = sf2.pop("STOPS")
+        try:
+            got2 = td_observation(TimingData(sf2, ch) if ch is not None else TimingData(sf2))
+        except core.WatchdogTimeout:
+            raise
+        except Exception as e:
+            got2 = f"{type(e).__name__}: {e}"
+        if got2 != want:
+            return [{"clause": "timing data of an SM simfile that spells its stops FREEZES differs", "expected": want, "observed": got2}], from_chart
     if got != want:
         mixed = [k for k in got if got[k] != want[k]]
         return [{
